@@ -683,3 +683,11 @@ var _ = fmt.Sprint
 func c10r7(r *R) {
 	boundsRule(r, "C10.R7", unprotectedFuncs(r), 40)
 }
+
+func init() {
+	p := registry["C10"]
+	p.Rules = append(p.Rules, ruleDef{"C10.R8", func(r *R) {
+		forkSiblingRule(r, "C10.R8", "server.go", "frame.go", "write.go", "http2.go")
+	}})
+	wantRefs("C10")
+}
